@@ -327,11 +327,9 @@ Proof.
   destruct (p x); cbn [negb andb orb]; [exact IH|reflexivity].
 Qed.
 
-Lemma enc_cont_valid l : plain_line l = true -> valid_cont (enc_cont l) = true.
+Lemma enc_cont_valid l : lb_free l = true -> valid_cont (enc_cont l) = true.
 Proof.
-  intros H. pose proof (plain_line_lb_free l H) as Hf.
-  unfold plain_line in H. apply andb_true_iff in H. destruct H as [H _].
-  apply andb_true_iff in H. destruct H as [_ Hws]. apply negb_true_iff in Hws.
+  intros Hf.
   unfold enc_cont. destruct (nonempty (py_strip l)) eqn:E.
   - apply valid_cont_sp; [exact Hf|]. apply not_all_exists.
     destruct (forallb py_isspace l) eqn:Ea; [|reflexivity].
@@ -339,22 +337,67 @@ Proof.
   - reflexivity.
 Qed.
 
-(** the stored form of a License *)
+(** the stored form of a License (also when some text lines are whitespace-only or '.') *)
 Lemma license_value syn text :
-  license_ok syn text = true ->
+  license_ok_weak syn text = true ->
   valid_value (lic_to_str (mkLic syn (otext text))) = true
   /\ trimmed (lic_to_str (mkLic syn (otext text))) = true.
 Proof.
-  unfold license_ok, lic_dom. intros H. apply andb_true_iff in H. destruct H as [H Hst].
+  unfold license_ok_weak, lic_dom_weak. intros H. apply andb_true_iff in H. destruct H as [H Hst].
   apply andb_true_iff in H. destruct H as [H Hl]. apply andb_true_iff in H. destruct H as [Hs He].
   apply negb_true_iff in He.
   unfold lic_to_str. cbn [lic_synopsis lic_text].
-  rewrite splitlines_text by (try exact He; now apply forallb_plain_lb_free).
+  rewrite splitlines_text by (try exact He; exact Hl).
   unfold format_multiline_lines. apply multi_line_value.
   - exact Hs.
   - now apply strip_stripped.
   - rewrite forallb_forall in *. intros c Hc. apply in_map_iff in Hc. destruct Hc as [l [<- Hin]].
     apply enc_cont_valid. now apply Hl.
+Qed.
+
+(** the exact domain is inside the wider one *)
+Lemma plain_line_no_linebreak l : plain_line l = true -> no_linebreak l = true.
+Proof. exact (plain_line_lb_free l). Qed.
+
+Lemma lic_dom_weaken syn text : lic_dom syn text = true -> lic_dom_weak syn text = true.
+Proof.
+  unfold lic_dom, lic_dom_weak. intros H. apply andb_true_iff in H. destruct H as [H Hl].
+  rewrite H. cbn [andb]. rewrite forallb_forall in *. intros l Hin. apply plain_line_no_linebreak. now apply Hl.
+Qed.
+
+Lemma license_ok_weaken syn text : license_ok syn text = true -> license_ok_weak syn text = true.
+Proof.
+  unfold license_ok, license_ok_weak. intros H. apply andb_true_iff in H. destruct H as [H1 H2].
+  now rewrite (lic_dom_weaken _ _ H1), H2.
+Qed.
+
+Lemma value_ok_weaken k v : value_ok k v = true -> value_ok_weak k v = true.
+Proof. destruct k, v; cbn [value_ok value_ok_weak]; auto. apply license_ok_weaken. Qed.
+
+Lemma hop_ok_weaken o : hop_ok o = true -> hop_ok_weak o = true.
+Proof.
+  destruct o as [i v|k v]; cbn [hop_ok hop_ok_weak]; [|auto].
+  destruct (nth_error header_kinds (N.to_nat i)); [apply value_ok_weaken|auto].
+Qed.
+
+Lemma para_ok_weaken p : para_ok p = true -> para_ok_weak p = true.
+Proof.
+  destruct p as [f c l cm|l cm]; cbn [para_ok para_ok_weak].
+  - destruct f as [| |fs|]; auto. destruct c as [|c| |]; auto. destruct l as [| | |syn text]; auto.
+    intros H. apply andb_true_iff in H. destruct H as [H Hcm]. apply andb_true_iff in H. destruct H as [H Hl].
+    now rewrite H, (license_ok_weaken _ _ Hl), Hcm.
+  - destruct l as [| | |syn text]; auto.
+    intros H. apply andb_true_iff in H. destruct H as [Hl Hcm]. now rewrite (license_ok_weaken _ _ Hl), Hcm.
+Qed.
+
+Lemma forallb_weaken {A} (p q : A -> bool) l :
+  (forall x, p x = true -> q x = true) -> forallb p l = true -> forallb q l = true.
+Proof. intros Hpq H. rewrite forallb_forall in *. intros x Hx. apply Hpq. now apply H. Qed.
+
+Lemma wf_copyright_weaken hops ps : wf_copyright hops ps = true -> wf_copyright_weak hops ps = true.
+Proof.
+  unfold wf_copyright, wf_copyright_weak. intros H. apply andb_true_iff in H. destruct H as [H1 H2].
+  rewrite (forallb_weaken _ _ _ hop_ok_weaken H1). now rewrite (forallb_weaken _ _ _ para_ok_weaken H2).
 Qed.
 
 (** generalisation of [join_ends_ns] to any separator *)
@@ -493,14 +536,14 @@ Qed.
 
 (** what a value of the domain becomes on its way into the mapping *)
 Lemma kind_value k v f :
-  rf_to f = kind_codec k -> value_ok k v = true ->
+  rf_to f = kind_codec k -> value_ok_weak k v = true ->
   exists x, bval_eval (bval_of_sval v) = Ok x
     /\ ((to_str (rf_to f) x = Ok None /\ k <> KFormat)
         \/ exists s, to_str (rf_to f) x = Ok (Some s) /\ valid_value s = true /\ trimmed s = true
                      /\ (k = KFormat -> format_stable s = true)).
 Proof.
   intros Hc Hv. rewrite Hc.
-  destruct k, v; try discriminate; cbn [value_ok] in Hv; cbn [bval_of_sval bval_eval kind_codec].
+  destruct k, v; try discriminate; cbn [value_ok_weak value_ok] in Hv; cbn [bval_of_sval bval_eval kind_codec].
   - (* Format *)
     apply andb_true_iff in Hv. destruct Hv as [Hl Hs].
     unfold line_ok in Hl. apply andb_true_iff in Hl. destruct Hl as [Hn Hst].
@@ -521,7 +564,7 @@ Proof.
   - unfold freetext_ok in Hv. apply andb_true_iff in Hv. destruct Hv as [H1 H2].
     exists (VStr s). split; [reflexivity|]. right. exists s. repeat split; auto. discriminate.
   - exists VNone. split; [reflexivity|]. left. split; [reflexivity|discriminate].
-  - pose proof Hv as Hv'. unfold license_ok, lic_dom in Hv'.
+  - pose proof Hv as Hv'. unfold license_ok_weak, lic_dom_weak in Hv'.
     apply andb_true_iff in Hv'. destruct Hv' as [Hv' _]. apply andb_true_iff in Hv'. destruct Hv' as [Hv' _].
     apply andb_true_iff in Hv'. destruct Hv' as [Hn _].
     exists (VLic (mkLic synopsis (otext text))). split.
@@ -579,10 +622,10 @@ Proof.
 Qed.
 
 Lemma header_step_ok d o :
-  hinv d -> hop_ok o = true ->
+  hinv d -> hop_ok_weak o = true ->
   exists d', header_step d (hop_of_shop o) = Ok d' /\ hinv d'.
 Proof.
-  intros Hi Ho. destruct o as [i v|k v]; cbn [hop_ok hop_of_shop header_step] in *.
+  intros Hi Ho. destruct o as [i v|k v]; cbn [hop_ok_weak hop_ok hop_of_shop header_step] in *.
   - destruct (nth_error header_kinds (N.to_nat i)) as [kd|] eqn:Ek; [|discriminate].
     destruct (header_table _ _ Ek) as [f [Hf Hm]]. unfold hfield. rewrite Hf. cbn [bind].
     destruct (kind_matches_parts kd f Hm) as (Hc & Hn & Hnfs & Hk).
@@ -601,7 +644,7 @@ Proof.
 Qed.
 
 Lemma header_run_ok ops : forall d,
-  hinv d -> forallb hop_ok ops = true ->
+  hinv d -> forallb hop_ok_weak ops = true ->
   exists d', header_run d (map hop_of_shop ops) = Ok d' /\ hinv d'.
 Proof.
   induction ops as [|o ops IH]; intros d Hi Ho; [now exists d|].
@@ -665,9 +708,9 @@ Proof.
   intros H. unfold mk_license, single_line. rewrite (no_linebreak_no_lf _ H). destruct text; reflexivity.
 Qed.
 
-Lemma license_ok_syn syn text : license_ok syn text = true -> no_linebreak syn = true.
+Lemma license_ok_syn syn text : license_ok_weak syn text = true -> no_linebreak syn = true.
 Proof.
-  unfold license_ok, lic_dom. intros H. apply andb_true_iff in H. destruct H as [H _].
+  unfold license_ok_weak, lic_dom_weak. intros H. apply andb_true_iff in H. destruct H as [H _].
   apply andb_true_iff in H. destruct H as [H _]. apply andb_true_iff in H. tauto.
 Qed.
 
@@ -690,9 +733,9 @@ Proof.
     cbn [dset app]. rewrite H1. now rewrite IH.
 Qed.
 
-Lemma build_para_ok p : para_ok p = true -> build_para (pspec_of_spara p) = Ok (built p).
+Lemma build_para_ok_weak p : para_ok_weak p = true -> build_para (pspec_of_spara p) = Ok (built p).
 Proof.
-  destruct p as [f c l cm|l cm]; cbn [para_ok].
+  destruct p as [f c l cm|l cm]; cbn [para_ok_weak].
   - destruct f as [| |fs|]; try discriminate. destruct c as [|c| |]; try discriminate.
     destruct l as [| | |syn text]; try discriminate. intros H.
     apply andb_true_iff in H. destruct H as [H Hcm]. apply andb_true_iff in H. destruct H as [H Hl].
@@ -734,9 +777,9 @@ Proof.
   unfold good_entry. cbn [fst snd]. rewrite Hv. unfold trimmed. rewrite Ht. reflexivity.
 Qed.
 
-Lemma built_good p : para_ok p = true -> good_para (cp_data (built p)) = true /\ cp_data (built p) <> [].
+Lemma built_good p : para_ok_weak p = true -> good_para (cp_data (built p)) = true /\ cp_data (built p) <> [].
 Proof.
-  destruct p as [f c l cm|l cm]; cbn [para_ok].
+  destruct p as [f c l cm|l cm]; cbn [para_ok_weak].
   - destruct f as [| |fs|]; try discriminate. destruct c as [|c| |]; try discriminate.
     destruct l as [| | |syn text]; try discriminate. intros H.
     apply andb_true_iff in H. destruct H as [H Hcm]. apply andb_true_iff in H. destruct H as [H Hl].
@@ -761,9 +804,9 @@ Proof.
     + destruct cm; reflexivity.
 Qed.
 
-Lemma built_is_files p : para_ok p = true -> is_files (built p) = is_pfiles p.
+Lemma built_is_files p : para_ok_weak p = true -> is_files (built p) = is_pfiles p.
 Proof.
-  destruct p as [f c l cm|l cm]; cbn [para_ok].
+  destruct p as [f c l cm|l cm]; cbn [para_ok_weak].
   - destruct f as [| |fs|]; try discriminate. destruct c as [|c| |]; try discriminate.
     destruct l as [| | |syn text]; try discriminate. reflexivity.
   - destruct l as [| | |syn text]; try discriminate. reflexivity.
@@ -818,13 +861,13 @@ Qed.
 
 (** Copyright.__init__ classifies them as what they are, in strict and in lax mode *)
 Lemma classify_built strict qs :
-  forallb para_ok qs = true ->
+  forallb para_ok_weak qs = true ->
   classify_all strict (map cp_data (map built qs)) = Ok (map built qs).
 Proof.
   induction qs as [|p qs IH]; intros H; [reflexivity|].
   cbn [forallb] in H. apply andb_true_iff in H. destruct H as [Hp Hqs].
   specialize (IH Hqs). cbn [map classify_all].
-  destruct p as [f c l cm|l cm]; cbn [para_ok] in Hp.
+  destruct p as [f c l cm|l cm]; cbn [para_ok_weak] in Hp.
   - destruct f as [| |fs|]; try discriminate. destruct c as [|c| |]; try discriminate.
     destruct l as [| | |syn text]; try discriminate.
     apply andb_true_iff in Hp. destruct Hp as [Hp Hcm]. apply andb_true_iff in Hp. destruct Hp as [Hp Hl].
@@ -885,16 +928,16 @@ Proof.
 Qed.
 
 Lemma add_all_ok ps : forall acc,
-  forallb para_ok ps = true ->
+  forallb para_ok_weak ps = true ->
   add_all acc (map pspec_of_spara ps) = Ok (fold_left add_para (map built ps) acc).
 Proof.
   induction ps as [|p ps IH]; intros acc H; [reflexivity|].
   cbn [forallb] in H. apply andb_true_iff in H. destruct H as [Hp Hps].
-  cbn [map add_all fold_left]. rewrite build_para_ok by exact Hp. cbn [bind]. now apply IH.
+  cbn [map add_all fold_left]. rewrite build_para_ok_weak by exact Hp. cbn [bind]. now apply IH.
 Qed.
 
 Lemma filter_map_built (ps : list spara) :
-  forallb para_ok ps = true ->
+  forallb para_ok_weak ps = true ->
   filter is_files (map built ps) = map built (filter is_pfiles ps)
   /\ filter (fun q => negb (is_files q)) (map built ps) = map built (filter (fun p => negb (is_pfiles p)) ps).
 Proof.
@@ -904,7 +947,7 @@ Proof.
   destruct (is_pfiles p); cbn [negb map]; rewrite I1, I2; split; reflexivity.
 Qed.
 
-Lemma expected_order_ok ps : forallb para_ok ps = true -> forallb para_ok (expected_order ps) = true.
+Lemma expected_order_ok ps : forallb para_ok_weak ps = true -> forallb para_ok_weak (expected_order ps) = true.
 Proof.
   intros H. unfold expected_order. rewrite forallb_app.
   apply andb_true_iff; split; rewrite forallb_forall in *; intros x Hx; apply filter_In in Hx; apply H; tauto.
@@ -932,18 +975,21 @@ Section Roundtrip.
       ds <> [] -> forallb good_para ds = true -> forallb nonempty_para ds = true ->
       Model.iter_paragraphs Model.CDeb822 true (input_of_text form (paras_text ds)) = Ok ds.
 
-  Theorem copyright_roundtrip_from_reader hops ps form strict :
-    wf_copyright hops ps = true ->
-    exists c1,
-      build_doc (map hop_of_shop hops) (map pspec_of_spara ps) = Ok c1
-      /\ copyright_parse strict (input_of_text form (cdump c1)) = Ok c1
-      /\ map para_view (cd_paras c1) = map expected_view (expected_order ps).
+  (** The core, on the wider domain: the document is built, and Copyright() reads its dump
+      back as the very same header and paragraphs. *)
+  Lemma roundtrip_core hops ps form strict :
+    wf_copyright_weak hops ps = true ->
+    exists h,
+      build_doc (map hop_of_shop hops) (map pspec_of_spara ps)
+      = Ok (mkDoc h (map built (expected_order ps)))
+      /\ copyright_parse strict (input_of_text form (cdump (mkDoc h (map built (expected_order ps)))))
+         = Ok (mkDoc h (map built (expected_order ps))).
   Proof.
-    unfold wf_copyright. intros H. apply andb_true_iff in H. destruct H as [Hh Hp].
+    unfold wf_copyright_weak. intros H. apply andb_true_iff in H. destruct H as [Hh Hp].
     destruct (header_run_ok hops _ hinv_initial Hh) as [h [Hrun Hi]].
     pose proof (expected_order_ok ps Hp) as Hq.
     set (qs := expected_order ps) in *.
-    exists (mkDoc h (map built qs)). split; [|split].
+    exists h. split.
     - unfold build_doc. rewrite header_init_none. cbn [bind]. rewrite Hrun. cbn [bind].
       rewrite add_all_ok by exact Hp. cbn [bind]. f_equal. f_equal.
       change (@nil cpara) with (@nil cpara ++ @nil cpara) at 1.
@@ -965,8 +1011,40 @@ Section Roundtrip.
         apply in_map_iff in Hq'. destruct Hq' as [p [<- Hin]].
         rewrite forallb_forall in Hq. destruct (built_good p (Hq p Hin)) as [_ Hne'].
         unfold nonempty_para. destruct (cp_data (built p)); [congruence|reflexivity].
-    - cbn [cd_paras]. rewrite map_map. apply map_ext_in. intros p Hin.
-      apply built_view. rewrite forallb_forall in Hq. now apply Hq.
+  Qed.
+
+  (** SURVIVAL on the wider domain (license lines may be whitespace-only or a lone '.'):
+      re-reading the dump gives the same document; the paragraphs are the Files paragraphs
+      in the order they were added, then the License paragraphs. *)
+  Theorem copyright_survives_from_reader hops ps form strict :
+    wf_copyright_weak hops ps = true ->
+    exists c1,
+      build_doc (map hop_of_shop hops) (map pspec_of_spara ps) = Ok c1
+      /\ copyright_parse strict (input_of_text form (cdump c1)) = Ok c1
+      /\ map is_files (cd_paras c1) = map is_pfiles (expected_order ps).
+  Proof.
+    intros H. destruct (roundtrip_core hops ps form strict H) as (h & Hb & Hparse).
+    eexists. split; [exact Hb|]. split; [exact Hparse|].
+    cbn [cd_paras]. rewrite map_map. apply map_ext_in. intros p Hin. apply built_is_files.
+    unfold wf_copyright_weak in H. apply andb_true_iff in H. destruct H as [_ Hp].
+    pose proof (expected_order_ok ps Hp) as Hq. rewrite forallb_forall in Hq. now apply Hq.
+  Qed.
+
+  (** EXACT round trip on [wf_copyright] *)
+  Theorem copyright_roundtrip_from_reader hops ps form strict :
+    wf_copyright hops ps = true ->
+    exists c1,
+      build_doc (map hop_of_shop hops) (map pspec_of_spara ps) = Ok c1
+      /\ copyright_parse strict (input_of_text form (cdump c1)) = Ok c1
+      /\ map para_view (cd_paras c1) = map expected_view (expected_order ps).
+  Proof.
+    intros H.
+    destruct (roundtrip_core hops ps form strict (wf_copyright_weaken _ _ H)) as (h & Hb & Hparse).
+    eexists. split; [exact Hb|]. split; [exact Hparse|].
+    cbn [cd_paras]. rewrite map_map. apply map_ext_in. intros p Hin. apply built_view.
+    unfold wf_copyright in H. apply andb_true_iff in H. destruct H as [_ Hp].
+    unfold expected_order in Hin. apply in_app_or in Hin.
+    rewrite forallb_forall in Hp. apply Hp. destruct Hin as [Hin|Hin]; apply filter_In in Hin; tauto.
   Qed.
 
   (** the same in the terms the correspondence check computes ([run_doc]): the re-read
@@ -982,5 +1060,19 @@ Section Roundtrip.
     intros H. destruct (copyright_roundtrip_from_reader hops ps form strict H) as (c1 & Hb & Hparse & Hv).
     exists (cdump c1), (view_of false header_fields (cd_header c1)).
     unfold run_doc. rewrite Hb, Hparse. unfold doc_view. now rewrite Hv.
+  Qed.
+
+  (** ... and on the wider domain: same values before and after, identical text *)
+  Corollary run_doc_survives hops ps form strict :
+    wf_copyright_weak hops ps = true ->
+    exists t v,
+      run_doc (map hop_of_shop hops) (map pspec_of_spara ps) form strict = RDone t v v t
+      /\ map pv_files (tl v) = map is_pfiles (expected_order ps).
+  Proof.
+    intros H. destruct (copyright_survives_from_reader hops ps form strict H) as (c1 & Hb & Hparse & Hk).
+    exists (cdump c1), (doc_view c1). split.
+    - unfold run_doc. now rewrite Hb, Hparse.
+    - unfold doc_view. cbn [tl]. rewrite map_map. rewrite <- Hk. apply map_ext.
+      intros [d|d]; reflexivity.
   Qed.
 End Roundtrip.
